@@ -205,6 +205,7 @@ def describe_tokens(desc, facts):
 
 # ------------------------------------------------------------------ queries
 
+FULL_SWEEP_VARIANTS = ('text-slide0x1000', 'data-slide0x1000', 'both-slides')
 MUTS = ['drop', 'insert', 'replace', 'truncate', 'extend', 'case', 'space', 'double']
 
 
@@ -235,7 +236,7 @@ def near_miss(name, rng):
     return kind, bytes(b)
 
 
-def make_queries(desc, comp, rng, full, nmiss):
+def make_queries(desc, comp, rng, full, nmiss, sample=400):
     """List of (query token, tag).  full: every function / symbol of the file; else a sample plus everything generated."""
     fn = [n for n, _ in (desc['pcln'] if isinstance(desc['pcln'], list) else [])]
     sy = [n for n, _ in (desc['syms'] or [])]
@@ -250,9 +251,9 @@ def make_queries(desc, comp, rng, full, nmiss):
         q += [('f:' + esc(n), 'func-absent') for n in sy[::9]]
     else:
         pick = lambda xs, k: [xs[rng.below(len(xs))] for _ in range(k)] if xs else []
-        q += [('f:' + esc(n), 'func') for n in pick(fn, 400) + gen_f + [AF.encode()]]
-        q += [('v:' + esc(n), 'sym') for n in pick(sy, 400) + gen_v + [AV.encode()]]
-        q += [('x:' + esc(n), 'expose') for n in pick(fn, 100)]
+        q += [('f:' + esc(n), 'func') for n in pick(fn, sample) + (gen_f if len(gen_f) <= 2 * sample else pick(gen_f, 2 * sample)) + [AF.encode()]]
+        q += [('v:' + esc(n), 'sym') for n in pick(sy, sample) + gen_v + [AV.encode()]]
+        q += [('x:' + esc(n), 'expose') for n in pick(fn, sample // 4)]
     if not fn:     # unreadable / PIE: the file's tables are not visible to the check either; ask for what must exist
         q += [('f:' + esc(n), 'func') for n in gen_f] + [('v:' + esc(n), 'sym') for n in gen_v] + [('x:' + esc(n), 'expose') for n in gen_f[:50]]
     base = (fn or gen_f) + (sy or gen_v)
@@ -491,10 +492,12 @@ def run(tier):
     cases, comp = prepare(tier, rng, comp_spec)
     hist = []
     for case in cases:
-        full = case['variant'] == 'as-linked' or tier == 'thorough'
+        # every function and every symbol of the file: executables as linked; in thorough also one text-, one data- and the double slide
+        full = case['variant'] == 'as-linked' or (tier == 'thorough' and case['variant'] in FULL_SWEEP_VARIANTS)
         r = rng.fork('q-' + case['id'])
         base = dict(case)
-        base['queries'] = make_queries(case['desc'], comp, r, full, 1500 if full else 300)
+        base['queries'] = make_queries(case['desc'], comp, r, full, (1500 if full else 300) * (1 if tier == 'quick' else 4),
+                                       sample=400 if tier == 'quick' else 4000)
         hist.append(base)
         if case['variant'] == 'as-linked' or case['variant'].startswith('text-slide'):
             # second history of the same executable: ExposeFunction is the very first call of the process
@@ -512,6 +515,9 @@ def run(tier):
                                         300 if tier == 'quick' else 3000)
         hist.append(h)
     stats = {}
+    weak = {'runtime has no name for the function (name-table offset 0): entry compared only': 0,
+            'generic instance: runtime prints type arguments as [...], name compared modulo them': 0,
+            'data symbol without a Go-level handle in the probe: compared with file value + known bias only': 0}
     total = nontriv = agreed = 0
     distinct = set()
     bad, diffs = [], []
@@ -526,6 +532,12 @@ def run(tier):
             st[key] = st.get(key, 0) + 1
             if o and o.startswith('ok:'):
                 nontriv += 1
+                if rt == 'entry-only':
+                    weak['runtime has no name for the function (name-table offset 0): entry compared only'] += 1
+                elif q[0] in 'fxFM' and '[' in q:
+                    weak['generic instance: runtime prints type arguments as [...], name compared modulo them'] += 1
+                elif rt == 'unk':
+                    weak['data symbol without a Go-level handle in the probe: compared with file value + known bias only'] += 1
                 distinct.add((case['binary'], q, o))
                 if rt in ('exact+ptr',):
                     st['direct-truth (&v / func pointer) confirmed'] = st.get('direct-truth (&v / func pointer) confirmed', 0) + 1
@@ -541,9 +553,9 @@ def run(tier):
             diffs.append((case, -1, None, 'model rejected the history line (bad-op)'))
     # ---- classify
     seen = set()
-    for case, i, why in bad:
+    for case, i, why in sorted(bad, key=lambda b: b[0]['variant'] != 'as-linked'):     # executables exactly as linked first, one line per history
         q = case['queries'][i][0]
-        k = (case['id'], why.split(',')[0][:40], q[0])
+        k = case['id']
         if k in seen or len(seen) >= 4:
             continue
         seen.add(k)
@@ -582,9 +594,10 @@ def run(tier):
         'evaluations': total, 'distinct_nontrivial': len(distinct), 'traces_validated_against_impl': agreed,
         'rule': 'one evaluation = one lookup call (FindFuncByName / FindVarByName / ExposeFunction) in a real process of one executable; '
                 'non-trivial = the call returned an address; distinct by (executable, call, address). as-linked executables: every pclntab function, every ELF symbol, '
-                'cross-kind and near-miss names; patched executables: a sample (all in thorough) plus every generated symbol',
+                'cross-kind and near-miss names; patched executables: a random sample of both tables plus the generated symbols (thorough: complete sweep also for one text slide, one data slide and the double slide)',
         'distribution': {'executables': per_mode, 'histories': len(hist), 'outcomes_by_history': stats, 'oracle_complaints': len(bad),
-                         'model_disagreements': len(diffs), 'companion': comp_spec},
+                         'model_disagreements': len(diffs), 'companion': comp_spec, 'addresses_returned': nontriv,
+                         'of_which_judged_by_a_weaker_oracle': weak},
         'samples': [{'history': h['id'], 'query': h['queries'][k][0][:120], 'impl': h['impl'][k], 'runtime': h['rt'][k][:120],
                      'model': h['model'][k] if h['model'] else None} for h in hist[:6] for k in (0, len(h['queries']) // 2)],
     }
